@@ -11,6 +11,7 @@ PROP = "C04"
 FWS = ["base", "pydantic", "sqlmodel", "attrs", "dataclasses"]
 LIT_SETS = [["lit_a"], ["lit_a", "lit_b"], ["lit_a", "lit_b", "long"], ["lit_a", "s_int"], ["lit_a", "null"], ["lit_a", "L(lit_b)"],
             # characters that a different escaping would alter: astral, line separators, quotes, backslash
+            [["J", {"a": f"v{i:02d}"}] for i in range(15)], [["J", {"a": [f"v{i:02d}" for i in range(15)]}]], [["J", {"a": f"v{i:02d}"}] for i in range(14)],
             [["J", {"a": "\U0001F600"}], ["J", {"a": "x\u2028y"}]], [["J", {"a": 'q"\\'}], ["J", {"a": "\U0001D400b"}], "lit_a"]]
 KEYS = ["a", "aB", "a-b", "class", "list", "Optional", "field", "a b", "é", "яя", "a\"b", "a\\b", "a'b", "a\tb", "1a", "id", "pk",
         "A", "a.b", "__a", "date", "type_", "aB1", "PK", "p-k", "Id", "ID"]
@@ -150,6 +151,29 @@ def execute(case):
                 continue
             seen.add((clause, fam))
             viol.append(core.viol(clause, tag if not plain else fam, shape, f"[{tag}] {detail} || {text[-300:]}"))
+    if case["opts"] in ("std", "lit") and len(case["h"]) <= 2:
+        # the same inferred graph emitted several times in a row with different generators / layouts / limits: every emission
+        # denotes the graph under ITS options (nothing rendered earlier may stick to the type objects)
+        ml = case.get("max_literals")
+        seq = [("attrs", "flat", {}), ("pydantic", "nested" if tree else "flat", {}), ("dataclasses", "flat", {} if ml is None else {"max_literals": ml}),
+               ("pydantic", "flat", {"max_literals": 16}), ("base", "flat", {"max_literals": 0})]
+        for fw, layout, kw in seq:
+            tag = fw + "".join("+" + k[:4] for k in sorted(kw)) + ("/nested" if layout == "nested" else "") + "+reused_graph"
+            try:
+                text = pipeline.render(b0.reg, fw, layout, **kw)
+                execs += 1
+                with program.Program(text, fw) as prog:
+                    found = judge.denotation_clauses(prog, b0, fw, max_literals=kw.get("max_literals", 10), meta_on=False, convert_unicode=True)
+            except Exception:
+                outcomes.append("reused:raises_or_does_not_load(C03/C14)")
+                continue
+            if any(c == "model_without_unique_class" for c, _ in found):
+                continue
+            for clause, detail in found:
+                if (clause, "reused") in seen:
+                    continue
+                seen.add((clause, "reused"))
+                viol.append(core.viol(clause, "reused_graph", shape, f"[{tag}] {detail} || {text[-300:]}"))
     return {"obs": obs, "viol": viol, "execs": execs, "trans": execs, "outcome": outcomes,
             "show": f"{len(b0.reg.models_map)} models tree={tree}", "nontrivial": core.digest(case) if len(obs) > 1 else None}
 
